@@ -192,11 +192,12 @@ class LazyValue:
         return str(self.value)
 
     def __hash__(self):
-        return hash((self.value, self.lexeme))
+        return hash((type(self.value).__name__, self.value, self.lexeme))
 
     def __eq__(self, other):
         return (
             isinstance(other, type(self))
+            and type(self.value) is type(other.value)
             and self.value == other.value
             and self.lexeme == other.lexeme
         )
